@@ -2,6 +2,7 @@ package c07
 
 import (
 	"bytes"
+	"flag"
 	"fmt"
 	"os"
 	"path/filepath"
@@ -211,7 +212,7 @@ func CheckSecrets(c SecretsCase) (hx.Vs, *secretsInfo) {
 		}
 		// violations of the history model are property C06's business; the run stops at them, the
 		// secrets learnt up to that point are still scanned for
-		info.classes = append(info.classes, "history-stopped-by-C06-violation")
+		info.classes = append(info.classes, "history-with-C06-finding")
 		break
 	}
 
@@ -373,14 +374,14 @@ func secretsTest(fixture string) string { return "TestNoClearSecrets/" + fixture
 func secretsCounts(fixture string) (int, int) {
 	switch fixture {
 	case "v2/mem":
-		return 40, 500
+		return 80, 700
 	case "v2/dir":
-		return 10, 120
+		return 20, 160
 	}
-	return 25, 300
+	return 50, 400
 }
 
-// TestNoClearSecrets: quick 4 shards x (3 x 25 + 40 + 10) = 500 histories.
+// TestNoClearSecrets: quick 2 shards x (3 x 50 + 80 + 20) = 500 histories.
 func TestNoClearSecrets(t *testing.T) {
 	for _, fixture := range kshist.FixtureNames {
 		fixture := fixture
@@ -389,6 +390,7 @@ func TestNoClearSecrets(t *testing.T) {
 			R.Rule(name, "kshist histories (1-20 operations, 6 key kinds, 1-3 client ids) on capture-wrapped storage (v1: filesystem.Storage wrapper, cache off/1/unbounded; v2: back-end wrapper over the in-memory and directory back ends); every private/symmetric key value is learnt by reading it through the API; none may occur raw, in hex or in base64 (nor its last 24 bytes raw/hex) in any byte sequence handed to WriteFile/Put, in the stored objects, in the values of the v1 key cache (probed after every step through KeyStore.Get for every stored name), or in an export bundle of all keys; positive control: generated public keys must be found in the captured writes; file modes 0600/0700 on real directories. Non-trivial = at least one secret learnt and at least one captured write scanned")
 			q, th := secretsCounts(fixture)
 			hx.Checks(q, th)
+			flag.Set("rapid.shrinktime", "10s") // cases are small; every evaluation builds a keystore
 			rapid.Check(t, func(rt *rapid.T) {
 				c := genSecretsCase(rt, fixture)
 				vs, info := CheckSecrets(c)
